@@ -164,8 +164,8 @@ def jobs(tier):
     out = []
     q = tier == 'quick'
 
-    def J(wall=600, **p):
-        out.append(Job('C08', 'c08:h_preempt', p, W=40, wall=wall if q else 3000, max_paths=200000, validate=1))
+    def J(wall=600, partial=False, **p):
+        out.append(Job('C08', 'c08:h_preempt', p, W=40, wall=wall if (q or partial) else 3000, max_paths=400000 if partial else 200000, validate=1, partial_ok=partial))
 
     for dll in ('j1939-21', 'j1939-22'):
         seg = 7 if dll == 'j1939-21' else 60
@@ -185,7 +185,9 @@ def jobs(tier):
         J(dll=dll, L=seg * 2 - 2, kind='p2p', victim='A', windows=[2, 2], app_send='pdu2')
         if not q:
             for victim in ('A', 'B'):
-                J(dll=dll, L=seg * 3 - 2, kind='p2p', victim=victim, windows=[1, 1], two=True, wall=6000)
+                # every PAIR of pre-emption points: explored under a budget and reported as non-exhaustive when it is hit
+                # (the property asks for pairs to be sampled, single pre-emptions are exhaustive)
+                J(dll=dll, L=seg * 3 - 2, kind='p2p', victim=victim, windows=[1, 1], two=True, wall=2400, partial=True)
     return out
 
 
